@@ -1181,6 +1181,18 @@ class Interp:
                 ast.copy_location(syn, n)
                 ast.copy_location(syn.slice, n)
                 return self.model.subscript(self, st, func.recv, obj, syn, frame)
+            if func.kind in ('item', 'items') and obj.ty in ('Row', 'DataFrame', 'Series', 'ndarray') and isinstance(n, ast.Call) and n.args:
+                # itemgetter(k, ...)(row): (row[k], ...)
+                outs = []
+                for key in ([func.key] if func.kind == 'item' else func.keys):
+                    ksrc = ast.Constant(value=cval(key)) if has_const(key) else ast.Name(id='_key', ctx=ast.Load())
+                    syn = ast.Subscript(value=n.args[0], slice=ksrc, ctx=ast.Load())
+                    ast.copy_location(syn, n)
+                    ast.copy_location(ksrc, n)
+                    outs.append(self.model.subscript(self, st, obj, key, syn, frame))
+                return outs[0] if func.kind == 'item' else AV(ty='tuple', elts=outs, fresh=True, deps=self.model.deps_of(outs, {}))
+            if func.kind == 'items':
+                return AV(ty='tuple', deps=self.model.deps_of(args, kwargs))
             if func.kind == 'attr':
                 return self.get_attr(obj, func.name, frame, st, n)
             if func.kind == 'method':
